@@ -141,7 +141,9 @@ def run(ctx):
         if rng.random() < 0.4:
             for c in range(C):
                 for k in range(K):
-                    if rng.random() < 0.15:
+                    usable = sum(1 for j in range(K) if not unknown[c][j] and not bd['atlimit'][c][j])
+                    # the fit needs at least three populations: keep four usable ones per channel
+                    if rng.random() < 0.15 and (usable - (0 if bd['atlimit'][c][k] else 1)) >= 4:
                         unknown[c][k] = True
                         mef_values[c][k] = None if rng.random() < 0.5 else np.nan
         ncl = int(rng.integers(1, C + 1))
@@ -253,8 +255,15 @@ def run(ctx):
                     a, b = np.asarray(out.statistic['values'][c]), np.asarray(o3.value.statistic['values'][c])
                     ok = ok and a.shape == b.shape and bool(np.all(np.abs(a - b) <= tol * np.abs(a)))
                     ok = ok and np.array_equal(np.asarray(out.selection['mef'][c]), np.asarray(o3.value.selection['mef'][c]))
-                    pa, pb = np.asarray(out.fitting['beads_params'][c]), np.asarray(o3.value.fitting['beads_params'][c])
-                    ok = ok and bool(np.allclose(pa, pb, rtol=1e-3 if use_mean else 1e-9, atol=1e-6))
+                    # the statement requires the permuted run to meet the same ground truth (within 10% of the true
+                    # conversion), not to reproduce the first run's optimiser output digit for digit (the fitted
+                    # autofluorescence is ill-conditioned when the true one is ~0)
+                    sr = np.asarray(o3.value.selection['rfi'][c], dtype=float)
+                    if len(sr) >= 3:
+                        m_, b_, _a = bd['laws'][c]
+                        x = np.geomspace(sr.min(), sr.max(), 60)
+                        y = np.asarray(o3.value.fitting['std_crv'][c](x), dtype=float)
+                        ok = ok and float(np.max(np.abs(y / (np.exp(b_) * x ** m_) - 1))) <= 0.10
             ctx.check(ok, 'event-order-dependence' + tag, cid, **desc)
         ctx.case_done(class_key=klass, nontrivial=True, distinct_key=core.digest(bd['X']),
                       sample={k: desc[k] for k in ('K', 'C', 'sizes', 'blank', 'sat_hi', 'sat_lo', 'clustering_channels', 'statistic', 'laws')}
